@@ -3,11 +3,13 @@
 package core
 
 import (
+	"encoding/json"
 	"fmt"
 	"go/ast"
 	"go/token"
 	"go/types"
 	"os"
+	"path/filepath"
 	"sort"
 	"strings"
 	"time"
@@ -32,6 +34,7 @@ type Prog struct {
 	LoadS     float64
 	SSAS      float64
 	Tolerated []string               // load errors tolerated (outside anchor packages)
+	Renamed   []string               // anchors resolved through the rename fallback
 	AllFuncs  map[*ssa.Function]bool // every function with a body in repo packages (incl. anonymous)
 	fileOf    map[*ast.File]*packages.Package
 }
@@ -188,9 +191,221 @@ func (p *Prog) SSAPkg(rel string) *ssa.Package {
 func (p *Prog) Func(spec string) *ssa.Function {
 	fn := p.FuncOpt(spec)
 	if fn == nil {
+		fn = p.renamedFunc(spec)
+	}
+	if fn == nil {
 		panic(Brokenf("anchor function %q does not resolve", spec))
 	}
 	return fn
+}
+
+// ---------------------------------------------------------------------------
+// Anchor snapshot: names, signatures and field types of the repository as of
+// the tree the rule tables were written against (/verif/anchors.json, written
+// by `verifcheck -snapshot-anchors`). It is consulted only when a named anchor
+// does not resolve: a function (field) that is NEW since the snapshot, sits on
+// the same receiver (struct) and has exactly the snapshot's signature (type)
+// is taken to be the renamed anchor when it is the only such candidate. The
+// substitution is recorded in the evidence notes.
+
+type anchorSnapshot struct {
+	Funcs  map[string]map[string]string `json:"funcs"`  // pkgrel → name spec → signature
+	Fields map[string]map[string]string `json:"fields"` // pkgrel:Type → field → type
+}
+
+var (
+	SnapshotPath = ""
+	snapLoaded   bool
+	snap         *anchorSnapshot
+)
+
+func loadSnapshot() *anchorSnapshot {
+	if snapLoaded {
+		return snap
+	}
+	snapLoaded = true
+	path := SnapshotPath
+	if path == "" {
+		if exe, err := os.Executable(); err == nil {
+			path = filepath.Join(filepath.Dir(filepath.Dir(exe)), "anchors.json")
+		}
+	}
+	b, err := os.ReadFile(path)
+	if err != nil {
+		return nil
+	}
+	s := &anchorSnapshot{}
+	if json.Unmarshal(b, s) != nil {
+		return nil
+	}
+	snap = s
+	return snap
+}
+
+// funcSpecName renders fn the way rule tables name it: F, T.M or (*T).M.
+func funcSpecName(fn *ssa.Function) string {
+	if fn.Signature.Recv() == nil {
+		return fn.Name()
+	}
+	t := fn.Signature.Recv().Type()
+	ptr := false
+	if pt, ok := t.(*types.Pointer); ok {
+		t, ptr = pt.Elem(), true
+	}
+	n, ok := t.(*types.Named)
+	if !ok {
+		return fn.Name()
+	}
+	if ptr {
+		return "(*" + n.Obj().Name() + ")." + fn.Name()
+	}
+	return n.Obj().Name() + "." + fn.Name()
+}
+
+func sigString(fn *ssa.Function) string {
+	return types.TypeString(fn.Signature, func(pk *types.Package) string { return pk.Path() })
+}
+
+func (p *Prog) relOf(pk *types.Package) string {
+	return strings.TrimPrefix(strings.TrimPrefix(pk.Path(), ModPath), "/")
+}
+
+// WriteAnchorSnapshot records today's names.
+func (p *Prog) WriteAnchorSnapshot(path string) error {
+	s := anchorSnapshot{Funcs: map[string]map[string]string{}, Fields: map[string]map[string]string{}}
+	for fn := range p.AllFuncs {
+		if fn.Parent() != nil || fn.Pkg == nil || !IsRepoFunc(fn) || fn.Synthetic != "" {
+			continue
+		}
+		rel := p.relOf(fn.Pkg.Pkg)
+		if s.Funcs[rel] == nil {
+			s.Funcs[rel] = map[string]string{}
+		}
+		s.Funcs[rel][funcSpecName(fn)] = sigString(fn)
+	}
+	for _, pk := range p.Pkgs {
+		rel := p.relOf(pk.Types)
+		sc := pk.Types.Scope()
+		for _, name := range sc.Names() {
+			tn, ok := sc.Lookup(name).(*types.TypeName)
+			if !ok {
+				continue
+			}
+			st, ok := tn.Type().Underlying().(*types.Struct)
+			if !ok {
+				continue
+			}
+			m := map[string]string{}
+			for k := 0; k < st.NumFields(); k++ {
+				m[st.Field(k).Name()] = types.TypeString(st.Field(k).Type(), func(pk *types.Package) string { return pk.Path() })
+			}
+			s.Fields[rel+":"+name] = m
+		}
+	}
+	b, err := json.MarshalIndent(s, "", " ")
+	if err != nil {
+		return err
+	}
+	return os.WriteFile(path, b, 0o644)
+}
+
+// IsNewSinceSnapshot: fn (a top-level function or method of the repository)
+// does not occur in the anchor snapshot.
+func (p *Prog) IsNewSinceSnapshot(fn *ssa.Function) bool {
+	s := loadSnapshot()
+	if s == nil || fn == nil || fn.Parent() != nil || fn.Pkg == nil || fn.Synthetic != "" || !IsRepoFunc(fn) {
+		return false
+	}
+	if o := fn.Origin(); o != nil {
+		fn = o
+	}
+	m, ok := s.Funcs[p.relOf(fn.Pkg.Pkg)]
+	if !ok {
+		return false // a whole new package: not an extracted block
+	}
+	_, existed := m[funcSpecName(fn)]
+	return !existed
+}
+
+func (p *Prog) renamedFunc(spec string) *ssa.Function {
+	s := loadSnapshot()
+	if s == nil {
+		return nil
+	}
+	i := strings.LastIndex(spec, ":")
+	rel, name := spec[:i], spec[i+1:]
+	anon := ""
+	if j := strings.Index(name, "$"); j >= 0 {
+		anon, name = name[j:], name[:j]
+	}
+	want, ok := s.Funcs[rel][name]
+	if !ok {
+		return nil
+	}
+	recvPrefix := ""
+	if k := strings.LastIndex(name, "."); k >= 0 {
+		recvPrefix = name[:k+1]
+	}
+	var cands []*ssa.Function
+	for fn := range p.AllFuncs {
+		if fn.Parent() != nil || fn.Pkg == nil || fn.Synthetic != "" || p.relOf(fn.Pkg.Pkg) != rel {
+			continue
+		}
+		sn := funcSpecName(fn)
+		if _, existed := s.Funcs[rel][sn]; existed {
+			continue
+		}
+		if recvPrefix != "" && !strings.HasPrefix(sn, recvPrefix) || recvPrefix == "" && strings.Contains(sn, ".") {
+			continue
+		}
+		if sigString(fn) == want {
+			cands = append(cands, fn)
+		}
+	}
+	if len(cands) != 1 {
+		return nil
+	}
+	fn := cands[0]
+	p.Renamed = append(p.Renamed, fmt.Sprintf("anchor function %s not found; using %s (new since the anchor snapshot, same receiver and signature)", spec, funcSpecName(fn)))
+	if anon != "" {
+		for _, a := range fn.AnonFuncs {
+			if a.Name() == fn.Name()+anon {
+				return a
+			}
+		}
+		return nil
+	}
+	return fn
+}
+
+func (p *Prog) renamedField(typeSpec, field string, st *types.Struct) *types.Var {
+	s := loadSnapshot()
+	if s == nil {
+		return nil
+	}
+	old, ok := s.Fields[typeSpec]
+	if !ok {
+		return nil
+	}
+	want, ok := old[field]
+	if !ok {
+		return nil
+	}
+	var cands []*types.Var
+	for k := 0; k < st.NumFields(); k++ {
+		f := st.Field(k)
+		if _, existed := old[f.Name()]; existed {
+			continue
+		}
+		if types.TypeString(f.Type(), func(pk *types.Package) string { return pk.Path() }) == want {
+			cands = append(cands, f)
+		}
+	}
+	if len(cands) != 1 {
+		return nil
+	}
+	p.Renamed = append(p.Renamed, fmt.Sprintf("anchor field %s.%s not found; using %s (new since the anchor snapshot, same type)", typeSpec, field, cands[0].Name()))
+	return cands[0]
 }
 
 func (p *Prog) FuncOpt(spec string) *ssa.Function {
@@ -297,6 +512,9 @@ func (p *Prog) Field(spec string) *types.Var {
 		if st.Field(k).Name() == spec[i+1:] {
 			return st.Field(k)
 		}
+	}
+	if f := p.renamedField(spec[:i], spec[i+1:], st); f != nil {
+		return f
 	}
 	panic(Brokenf("anchor field %q does not resolve", spec))
 }
